@@ -233,24 +233,28 @@ CfgsAll == {Cfg(x[1], x[2], x[3]) : x \in BOOLEAN \X BOOLEAN \X BOOLEAN}
 
 Ty(w, s, p) == [w |-> w, s |-> s, path |-> p]
 TypesSweep == {Ty(x[1], x[2], x[3]) : x \in (2..(5*S + 2)) \X BOOLEAN \X {"gen", "topy"}}
-\* images of the real LP64 types for 30-bit digits: 8, 16, 32, 64, 128 bits
-ImgW == {S - 2, S - 1, S + E, 2*S + E, 4*S + E}
+\* images of the real LP64 types for 30-bit digits: 8, 16, 32, 64, 128 bits (S = 7: 3, 5, 9, 16, 30 bits, so that every
+\* type bound and digit boundary, each +-1, keeps its real order: the harness checks this class by class)
+ImgW == {S - 4, S - 2, S + E, 2*S + E, 4*S + E}
 TypesImg == {Ty(x[1], x[2], x[3]) : x \in ImgW \X BOOLEAN \X {"gen", "topy"}} \cup {Ty(2*S + E, TRUE, "ssz"), Ty(2*S + E, TRUE, "cssz")}
-SszTypes(abis) == {Ty(x[1].wc, TRUE, x[2]) : x \in abis \X {"ssz", "cssz"}}
+SszTypes(abis) == {Ty(w, TRUE, p) : w \in {a.wc : a \in abis}, p \in {"ssz", "cssz"}}
 TypesSweepNamed == TypesSweep \cup SszTypes(AbisNamed)
 TypesSweepQuick == TypesSweep \cup SszTypes(AbisQuick)
 TypesSweepAll == TypesSweep \cup SszTypes(AbisSweep)
 AbisLP64 == {AbiLP64}
+\* a thinner family for the branch-coverage run
+TypesCov == {Ty(x[1], x[2], x[3]) : x \in {2, S + 1, 2*S, 2*S + 1, 3*S, 3*S + 1, 4*S + 1, 5*S + 2} \X BOOLEAN \X {"gen", "topy"}} \cup SszTypes(AbisQuick)
+TypesOne == {Ty(S + E, TRUE, "gen")}
 
 ---------------------------------------------------------------------------
 (* value forms (Pub): the harness evaluates the same form with the real S = 30 and real widths *)
 Form(f, q, r, sg, d, tw, ts, hi) == [f |-> f, q |-> q, r |-> r, sg |-> sg, d |-> d, tw |-> tw, ts |-> ts, hi |-> hi]
 BitForms == {Form("bit", x[1], x[2], x[3], x[4], 0, FALSE, FALSE) :
-             x \in {y \in (0..5) \X {0, S - 1} \X {1, -1} \X {-1, 0, 1} : S * y[1] + y[2] <= 5 * S}}
+             x \in {y \in (0..5) \X {0, S - 1} \X {1, -1} \X {-1, 0, 1} : S * y[1] + y[2] <= 4 * S + E}}
 BoundForms == {Form("bound", 0, 0, 1, x[1], x[2], x[3], x[4]) : x \in {-1, 0, 1} \X ImgW \X BOOLEAN \X BOOLEAN}
 FormVal(fm) == IF fm.f = "raw" THEN fm.d ELSE IF fm.f = "bit" THEN fm.sg * P2(S * fm.q + fm.r) + fm.d
                ELSE (IF fm.hi THEN Max([w |-> fm.tw, s |-> fm.ts]) ELSE Min([w |-> fm.tw, s |-> fm.ts])) + fm.d
-NIForms(t) == {fm \in BitForms : fm.r = 0 /\ fm.d = 0 /\ fm.q \in {0, 1, 2, 3, 5}}
+NIForms(t) == {fm \in BitForms : fm.r = 0 /\ fm.d = 0 /\ fm.q \in {0, 1, 2, 3, 4}}
               \cup {fm \in BoundForms : fm.tw = t.w /\ fm.ts = t.s /\ fm.d \in {0, IF fm.hi THEN 1 ELSE -1}}
 RawF(v) == Form("raw", 0, 0, 1, v, 0, FALSE, FALSE)     \* ~Pub: the plain value travels in field d
 RawForm == RawF(0)
